@@ -768,6 +768,59 @@ func (s *sim) ellswiftChecks() {
 		}
 	}
 	r.Count("xswiftec_inv_roundtrips", hit)
+	// (3) the same at the edges of the field representation: u and x whose
+	// 26-bit limbs are all-ones or close to it (carries and lazy reductions
+	// inside the repository's field arithmetic are exercised by the
+	// handshake of every peer whose key happens to look like that)
+	edge := func(tag string) (btcec.FieldVal, bool) {
+		var b [32]byte
+		copy(b[:], c.Bytes(32, tag))
+		k := uint32(c.Intn(1200, tag+".k"))
+		low := uint32(1<<26-1) - k
+		b[31], b[30], b[29] = byte(low), byte(low>>8), byte(low>>16)
+		b[28] = b[28]&0xfc | byte(low>>24)
+		if c.Bool(300, tag+".ones") {
+			for i := 8; i < 28; i++ {
+				b[i] = 0xff // more limbs all-ones
+			}
+		}
+		var f btcec.FieldVal
+		if f.SetBytes(&b) != 0 {
+			f.Normalize()
+		}
+		f.Normalize()
+		return f, !f.IsZero()
+	}
+	ue, ok := edge("es.edge.u")
+	if !ok {
+		return
+	}
+	for try := 0; try < 8; try++ {
+		xe, ok := edge("es.edge.x")
+		if !ok {
+			continue
+		}
+		// on the curve?  x^3 + 7 must be a square
+		var y2, y btcec.FieldVal
+		y2.SquareVal(&xe).Mul(&xe).AddInt(7).Normalize()
+		if !y.SquareRootVal(&y2) {
+			continue
+		}
+		for cs := 0; cs < 8; cs++ {
+			uc, xc := ue, xe
+			t := ellswift.XSwiftECInv(&uc, &xc, cs)
+			if t == nil {
+				continue
+			}
+			uc2, tc := ue, *t
+			got, err := ellswift.XSwiftEC(&uc2, &tc)
+			if err != nil || !got.Normalize().Equals(&xe) {
+				r.Violate(propID, "xswiftec-inverse", "", "XSwiftEC(u, XSwiftECInv(u,x,case=%d)) != x at a limb boundary: u=%x x=%x t=%x err=%v", cs, ue.Bytes()[:], xe.Bytes()[:], t.Bytes()[:], err)
+			}
+			r.Count("xswiftec_inv_roundtrips_at_limb_edges", 1)
+		}
+		break
+	}
 }
 
 func (s *sim) checkDecode(who string, priv *btcec.PrivateKey, enc [64]byte) {
